@@ -522,7 +522,17 @@ func classify(c *Case) (nontrivial bool) {
 	return
 }
 
+// hangs counts the deadlines of this process (each costs 30 s and more). Once
+// three cases have run into one, whatever their verdict was (something stuck
+// inside go9p: violation, recorded; otherwise inconclusive, recorded), further
+// cases add nothing to the shard's verdict and would only keep it running until
+// the driver kills it, which loses what has been recorded.
+var hangs int
+
 func execute(test string, c *Case) error {
+	if hangs >= 3 {
+		return nil
+	}
 	hx.Journal(test, c)
 	hx.Eval()
 	if c.Flush != nil {
@@ -543,6 +553,7 @@ func execute(test string, c *Case) error {
 		hx.Sample(test, c)
 		err := runVTag(c)
 		if h, ok := err.(hangErr); ok {
+			hangs++
 			// nothing is held in this case: no reply at all is a missing reply
 			if blocked := hx.BlockedInGo9p(); blocked != "" {
 				return fmt.Errorf("%s; goroutines blocked inside go9p:\n%s", string(h), blocked)
@@ -593,6 +604,7 @@ func execute(test string, c *Case) error {
 
 func verdict(err error) error {
 	if h, ok := err.(hangErr); ok {
+		hangs++
 		// a deadline: violation only if something is blocked inside go9p
 		if blocked := hx.BlockedInGo9p(); blocked != "" {
 			return fmt.Errorf("%s; goroutines blocked inside go9p:\n%s", string(h), blocked)
